@@ -14,7 +14,7 @@ from concurrent.futures import ThreadPoolExecutor
 import core
 from stages.common import *
 
-MON_C11 = {"NoRepeat", "InOrder", "NoGap", "FromStart", "DigestOk", "LiveComplete", "Refusal"}
+MON_C11 = {"NoRepeat", "InOrder", "NoGap", "FromStart", "DigestOk", "LiveComplete", "Refusal", "StoredButNeverDispatched"}
 MON_C12_CALLBACKS = {"PutNeverWaitsOnConsumer", "OthersServed"}
 PKG = "./internal/chain/beacon"
 SHARDS = 4
@@ -139,6 +139,9 @@ def run(ctx, monitors):
             gen.append(lambda: _enumerate(ctx, "Sim_SyncServe_w2.cfg", "w2-bolt", limit=60))
             # memdb sample: scans over a full ring buffer (every Put evicts the oldest round)
             gen.append(lambda: _enumerate(ctx, "Sim_SyncServe_memevict_quick.cfg", "evict-mem", limit=40))
+        # the writer's context is cancelled right after the write committed / before the write
+        gen.append(lambda: [sc for sc in _enumerate(ctx, "Sim_SyncServe_wcancel.cfg", "wcancel-bolt", timeout=600)
+                            if any(st["a"] in ("StoreC", "PutAborted") for st in sc["steps"])][:: (12 if q else 1)])
         n = 40 if q else 400
         gen.append(lambda: _simulate(ctx, "Sim_SyncServe_two.cfg", "two-bolt", n, 200))
         gen.append(lambda: _simulate(ctx, "Sim_SyncServe_same.cfg", "same-bolt", 150 if q else 600, 200))
